@@ -60,6 +60,20 @@ Lemma keep_eq : forall x e,
   = negb (existsb (Z.eqb (row_tok x)) e).
 Proof. intros. rewrite hd_slice_to1. apply forallb_ne. Qed.
 
+Lemma filter_keep : forall rows e,
+  filter (fun x : list Z => (0 <=? nth 1 x 0)%Z && (nth 1 x 0 <=? nth 2 x 0)%Z
+            && forallb (fun b : bool => b) (map (zcmp KNe (hd 0%Z (slice_list None (Some 1%Z) x))) e)) rows
+  = filter (fun r : list Z => (0 <=? row_start r)%Z && (row_start r <=? row_end r)%Z
+              && negb (existsb (Z.eqb (row_tok r)) e)) rows.
+Proof. intros. apply filter_ext. intros x. now rewrite keep_eq. Qed.
+
+Lemma existsb_keep : forall rows e,
+  existsb (fun x : list Z => negb ((0 <=? nth 1 x 0)%Z && (nth 1 x 0 <=? nth 2 x 0)%Z)
+             && forallb (fun b : bool => b) (map (zcmp KNe (hd 0%Z (slice_list None (Some 1%Z) x))) e)) rows
+  = existsb (fun r : list Z => negb ((0 <=? row_start r)%Z && (row_start r <=? row_end r)%Z)
+               && negb (existsb (Z.eqb (row_tok r)) e)) rows.
+Proof. intros. apply existsb_ext'. intros x. now rewrite keep_eq. Qed.
+
 #[local] Arguments enc17 : simpl never.
 #[local] Arguments dec17 : simpl never.
 #[local] Arguments unique_consecutive_counts : simpl never.
@@ -138,28 +152,122 @@ Ltac rstmt := open_seq; rstep.
 
 Definition ref_file (d p u s : string) : val := path (VStr d) (VStr ((p ++ u) ++ s)).
 
-(* the (R, 3) case, with an exclude list *)
-Lemma ref_moments_rows_excl : forall fs u d p s e rows,
-  dict_get fs (ref_file d p u s) = Some (enc_tensor (Mat 3 rows)) ->
-  exists st, run_ref_moments fs u d p s (Some e) = Ok (ref_moments_value (ref_moments (Some e) (Mat 3 rows))) st
-             /\ events st = [].
+(* the k-th tail of a right-nested sequence *)
+Fixpoint drop_seq (k : nat) (s : stmt) : stmt :=
+  match k, s with S k', SSeq _ b => drop_seq k' b | _, _ => s end.
+
+Definition validf (x : list Z) : bool := ((0 <=? nth 1 x 0) && (nth 1 x 0 <=? nth 2 x 0))%Z.
+Definition lenf (x : list Z) : Z := (nth 2 x 0 - nth 1 x 0)%Z.
+
+(* the state after `not_excluded = ...` (statement 6), whatever the mask [K] is *)
+Definition ref_mid_vars (u d p s : string) (ev : val) (rows : list (list Z)) (K : list Z -> bool) : list (string * val) :=
+  [("utt_id", VStr u); ("dir_", VStr d); ("prefix", VStr p); ("suffix", VStr s); ("exclude_ids", ev);
+   ("torch", torch_module); ("ref", enc17 (L2 3 rows)); ("eprefix", msg);
+   ("lens", enc17 (L1 (map lenf rows))); ("valid", enc17 (B1 (map validf rows)));
+   ("not_excluded", enc17 (B1 (map K rows)))].
+
+Definition ref_result (rows : list (list Z)) (K : list Z -> bool) : val :=
+  let kept := map lenf (filter (fun x => validf x && K x) rows) in
+  VTuple [VInt (fold_right Z.add 0%Z kept); VInt (fold_right Z.add 0%Z (map (fun z => (z * z)%Z) kept));
+          VInt (Z.of_nat (List.length kept));
+          if existsb (fun x => negb (validf x) && K x) rows then msg else VNone].
+
+Lemma ref_tail : forall fs u d p s ev rows K,
+  exists st, exec (ext17 fs) (drop_seq 6 ref_moments_body) (mkState (ref_mid_vars u d p s ev rows K) [])
+             = Ok (CReturn (ref_result rows K)) st /\ events st = [].
 Proof.
-  intros fs u d p s e rows H. unfold run_ref_moments.
-  assert (X : exists st, exec (ext17 fs) ref_moments_body
-                (mkState (ref_moments_vars (VStr u) (VStr d) (VStr p) (VStr s) (Some e)) [])
-              = Ok (CReturn (ref_moments_value (ref_moments (Some e) (Mat 3 rows)))) st /\ events st = []).
-  2:{ destruct X as [st [X1 X2]]. exists st. split; [apply run_of_exec_ret; exact X1|exact X2]. }
-  unfold ref_moments_body, ref_moments_vars. cbn [excl_arg].
-  remember (ref_moments_value (ref_moments (Some e) (Mat 3 rows))) as RES.
+  intros. unfold ref_moments_body, ref_mid_vars. cbn [drop_seq].
+  remember (ref_result rows K) as RES.
+  rstmt. close_stmt.
+  open_seq. open_if. rstep.
+  match goal with |- context [if existsb ?P rows then _ else _] => destruct (existsb P rows) eqn:B end; subst_body.
+  - rstmt. close_stmt. rstep. close_stmt. rstmt. close_stmt. rstmt. close_stmt. rstep.
+    eexists. split; [|shelve]. subst RES. unfold ref_result. rewrite select_map_map.
+    unfold validf in *. rewrite B. reflexivity. Unshelve. reflexivity.
+  - rstep. close_stmt. rstmt. close_stmt. rstmt. close_stmt. rstep.
+    eexists. split; [|shelve]. subst RES. unfold ref_result. rewrite select_map_map.
+    unfold validf in *. rewrite B. reflexivity. Unshelve. reflexivity.
+Qed.
+
+Definition keep_excl (e : list Z) (x : list Z) : bool :=
+  forallb (fun b : bool => b) (map (zcmp KNe (hd 0%Z (slice_list None (Some 1%Z) x))) e).
+
+Lemma ref_head : forall fs u d p s excl rows,
+  dict_get fs (ref_file d p u s) = Some (enc_tensor (Mat 3 rows)) ->
+  exec (ext17 fs) ref_moments_body (mkState (ref_moments_vars (VStr u) (VStr d) (VStr p) (VStr s) excl) [])
+  = exec (ext17 fs) (drop_seq 6 ref_moments_body)
+      (mkState (ref_mid_vars u d p s (excl_arg excl) rows
+                  (match excl with Some e => keep_excl e | None => fun _ => true end)) []).
+Proof.
+  intros fs u d p s excl rows H.
+  remember (exec (ext17 fs) (drop_seq 6 ref_moments_body)
+      (mkState (ref_mid_vars u d p s (excl_arg excl) rows
+                  (match excl with Some e => keep_excl e | None => fun _ => true end)) [])) as RHS.
+  unfold ref_moments_body, ref_moments_vars.
   rstmt. fold (ref_file d p u s). rewrite H. cbn [bind]. close_stmt. unfold enc_tensor, lten_of.
   rstmt. close_stmt.
   open_seq. open_if. rstep. subst_body. rstep. close_stmt.
   rstmt. close_stmt.
   rstmt. close_stmt.
-  open_seq. open_if. rstep. subst_body. rstep. close_stmt.
+  destruct excl as [e|]; cbn [excl_arg] in *.
+  - open_seq. open_if. rstep. subst_body. rstep. close_stmt. subst RHS. reflexivity.
+  - open_seq. open_if. rstep. subst_body. rstep. close_stmt. subst RHS. reflexivity.
+Qed.
+
+Lemma ref_result_model : forall rows excl,
+  ref_result rows (match excl with Some e => keep_excl e | None => fun _ => true end)
+  = ref_moments_value (ref_moments excl (Mat 3 rows)).
+Proof.
+  intros rows excl. unfold ref_result, ref_moments_value, ref_moments, excluded, validf, lenf.
+  destruct excl as [e|].
+  - unfold keep_excl. rewrite filter_keep, existsb_keep. reflexivity.
+  - reflexivity.
+Qed.
+
+Lemma ref_moments_rows : forall fs u d p s excl rows,
+  dict_get fs (ref_file d p u s) = Some (enc_tensor (Mat 3 rows)) ->
+  exists st, run_ref_moments fs u d p s excl = Ok (ref_moments_value (ref_moments excl (Mat 3 rows))) st
+             /\ events st = [].
+Proof.
+  intros fs u d p s excl rows H. unfold run_ref_moments.
+  destruct (ref_tail fs u d p s (excl_arg excl) rows
+              (match excl with Some e => keep_excl e | None => fun _ => true end)) as [st [X1 X2]].
+  exists st. split; [|exact X2]. apply run_of_exec_ret. rewrite (ref_head _ _ _ _ _ _ _ H), X1, ref_result_model.
+  reflexivity.
+Qed.
+
+(* anything that is not (R, 3): (0, 0, 0) and a message *)
+Lemma ref_moments_other : forall fs u d p s excl t,
+  dict_get fs (ref_file d p u s) = Some (enc_tensor t) ->
+  match t with Mat 3 _ => False | _ => True end ->
+  exists st, run_ref_moments fs u d p s excl = Ok (ref_moments_value (ref_moments excl t)) st /\ events st = [].
+Proof.
+  intros fs u d p s excl t H N. unfold run_ref_moments.
+  assert (X : exists st, exec (ext17 fs) ref_moments_body
+                (mkState (ref_moments_vars (VStr u) (VStr d) (VStr p) (VStr s) excl) [])
+              = Ok (CReturn (ref_moments_value (ref_moments excl t))) st /\ events st = []).
+  2:{ destruct X as [st [X1 X2]]. exists st. split; [apply run_of_exec_ret; exact X1|exact X2]. }
+  assert (RM : ref_moments excl t = ((0, 0, 0)%Z, true)).
+  { destruct t as [v|w rows]; [reflexivity|]. destruct w as [|[|[|[|w]]]]; try reflexivity. contradiction. }
+  rewrite RM. clear RM.
+  unfold ref_moments_body, ref_moments_vars.
+  rstmt. fold (ref_file d p u s). rewrite H. cbn [bind]. close_stmt. unfold enc_tensor.
   rstmt. close_stmt.
-  open_seq. open_if. rstep.
-  match goal with |- context [if existsb ?P rows then _ else _] => destruct (existsb P rows) eqn:B end; subst_body.
-  - rstmt. close_stmt. rstep. close_stmt. rstmt. close_stmt. rstmt. close_stmt. rstep.
-    Show.
-Abort.
+  destruct t as [v|w rows]; cbn [lten_of].
+  - open_seq. open_if. rstep. subst_body. rstmt. close_stmt. rstep. eexists. split; reflexivity.
+  - assert (Hw : (Z.of_nat w =? 3)%Z = false).
+    { destruct w as [|[|[|[|w]]]]; try reflexivity; [contradiction|lia]. }
+    open_seq. open_if. rstep. rewrite Hw. rstep. subst_body. rstmt. close_stmt. rstep.
+    eexists. split; reflexivity.
+Qed.
+
+Theorem ref_moments_tie : forall fs u d p s excl t,
+  dict_get fs (ref_file d p u s) = Some (enc_tensor t) ->
+  exists st, run_ref_moments fs u d p s excl = Ok (ref_moments_value (ref_moments excl t)) st /\ events st = [].
+Proof.
+  intros fs u d p s excl t H.
+  destruct t as [v|w rows]; [apply ref_moments_other; [exact H|exact I]|].
+  destruct (Nat.eq_dec w 3) as [->|Hw].
+  - apply ref_moments_rows; exact H.
+  - apply ref_moments_other; [exact H|]. destruct w as [|[|[|[|w]]]]; try exact I. contradiction.
+Qed.
